@@ -686,11 +686,7 @@ const (
 
 const worldReadTag = "block with a world read lock: "
 
-// the second known finding (Reset of a retried transaction panics on an account that is not
-// in the base snapshot); like the world-read-lock one it does not count towards maxFailures
-const resetPanicMark = "Reset with invalid snapshot"
-
-var failures int // oracle failures so far, not counting the known findings
+var failures int // oracle failures so far, not counting the known world-read-lock finding
 
 func committed(t *htx) bool {
 	p := t.wvs.Load()
@@ -1606,7 +1602,7 @@ func emit(c *hxlib.Ctx, kind string, bc *blockCase, r *rand.Rand, sc *seqCache) 
 		cs.Coq = coqCase(bc, seq, conc, r.Int63n(1<<31))
 	}
 	c.Emit(cs)
-	if msg != "" && !strings.HasPrefix(msg, worldReadTag) && !strings.Contains(msg, resetPanicMark) {
+	if msg != "" && !strings.HasPrefix(msg, worldReadTag) {
 		failures++
 	}
 	return msg
